@@ -1,4 +1,7 @@
-import SlugModel.Lemmas.TransEq
+import SlugModel.Lemmas.TrEq_splitSubPath
+import SlugModel.Lemmas.TrEq_parseLocalSource
+import SlugModel.Lemmas.TrEq_looksLikeLocalSource
+import SlugModel.Lemmas.TrEq_normalizeSubpath
 /-!
 # C06 (tie by translation)
 
